@@ -9,7 +9,10 @@ Enumerated (DESIGN.md section 4, C03), reflectively:
   attributes  every `property` with a setter on the target's class, minus domains.SKIP;
   values      every value of domains.values_for (>= 2 per attribute);
   histories   singles: assign one attribute, on the entity as created (still in memory) and on
-              the entity re-loaded from the file in r+ mode (deviation "pre");
+              the entity re-loaded from the file in r+ mode (deviation "pre"; COLD: neither the domain
+              nor the 'before' record reads the entity - both come from a separate read-only opening -
+              so the setter is the first touch, None included); plus, for every array / dict / list
+              attribute, "read through the getter, edit the returned object in place, assign it back";
               pairs: every ORDERED pair of distinct attributes of one target (first value of each
               domain), plain, with "pre", and with a re-open between the two assignments ("mid").
               quick: pairs for the representative targets only; thorough: all targets.
@@ -54,18 +57,20 @@ def _histories(ctx, described):
     for d in described:
         base = {"property": "C03", "cls": d["cls"], "target": d["target"]}
         for pre in (False, True):
-            for attr, nvals, _, _ in d["attrs"]:
+            for attr, nvals, _, _, none_idx, editable in d["attrs"]:
                 for vi in range(nvals):
-                    if ctx.quick and pre and vi > 0:
-                        continue  # quick: the re-loaded variant with the first value of each domain only
+                    if ctx.quick and pre and vi > 0 and vi not in none_idx:
+                        continue  # quick: the re-loaded (cold) variant with the first value of each domain and with None
                     singles.append(dict(base, ops=[[attr, vi]], pre=pre, mid=False))
-    singles.sort(key=lambda h: (h["pre"], h["ops"][0][1]))  # simplest first: no deviation, first value
+                if editable:  # read through the getter, edit in place, assign back
+                    singles.append(dict(base, ops=[[attr, "e"]], pre=pre, mid=False))
+    singles.sort(key=lambda h: (h["pre"], 99 if h["ops"][0][1] == "e" else h["ops"][0][1]))  # simplest first: no deviation, first value
     for d in described:
         key = (d["cls"], d["target"])
         if ctx.quick and key not in QUICK_PAIR_TARGETS:
             continue
         base = {"property": "C03", "cls": d["cls"], "target": d["target"]}
-        names = [a for a, _, _, _ in d["attrs"]]
+        names = [a[0] for a in d["attrs"]]
         variants = [(False, False)] if ctx.quick else [(False, False), (True, False)]
         if key in MID_TARGETS and not ctx.quick:
             variants.append((False, True))
@@ -78,7 +83,7 @@ def _histories(ctx, described):
     same = []
     for d in described:
         base = {"property": "C03", "cls": d["cls"], "target": d["target"]}
-        for attr, nvals, _, numeric in d["attrs"]:
+        for attr, nvals, _, numeric, _, _ in d["attrs"]:
             if ctx.quick and not numeric:
                 continue  # quick: numeric scalars only; thorough: every attribute
             variants = [(False, False), (False, True)] if ctx.quick else [(False, False), (True, False), (False, True)]
